@@ -19,10 +19,11 @@ def main():
         na_file = json.load(open(os.path.join(VERIF, "not_applicable.json")))
     except IOError:
         na_file = {}
+    ready = set(l.strip() for l in open(os.path.join(VERIF, "checks", "READY")) if l.strip() and not l.startswith("#"))
     for p in props:
         pid = p["id"]
         path = os.path.join(VERIF, "checks", pid.lower() + ".py")
-        if pid in na_file or not os.path.exists(path):
+        if pid in na_file or not os.path.exists(path) or pid not in ready:
             na.append({"property_id": pid, "reason": na_file.get(pid, PENDING_REASON)})
             continue
         m = importlib.import_module("checks." + pid.lower()).META
